@@ -457,4 +457,187 @@ Proof.
     rewrite (H_ann eq_refl). eapply IH; eassumption.
 Qed.
 
+
+(* ================= totality: enough fuel always exists ================= *)
+Fixpoint vsize (v : val) : nat :=
+  match v with
+  | VList l | VTuple l | VSet l | VFrozenSet l => S ((fix sum (l : list val) : nat := match l with [] => 0 | x :: r => vsize x + sum r end) l)
+  | VDict kvs => S ((fix sum (l : list (val * val)) : nat := match l with [] => 0 | (k, x) :: r => vsize k + vsize x + sum r end) kvs)
+  | VInst _ fs => S ((fix sum (l : list (N * val)) : nat := match l with [] => 0 | (_, x) :: r => vsize x + sum r end) fs)
+  | _ => 1
+  end.
+Definition lsum (l : list val) : nat := (fix sum (l : list val) : nat := match l with [] => 0 | x :: r => vsize x + sum r end) l.
+Definition dsum (l : list (val * val)) : nat := (fix sum (l : list (val * val)) : nat := match l with [] => 0 | (k, x) :: r => vsize k + vsize x + sum r end) l.
+Definition fsum (l : list (N * val)) : nat := (fix sum (l : list (N * val)) : nat := match l with [] => 0 | (_, x) :: r => vsize x + sum r end) l.
+
+Lemma lsum_in x l : In x l -> vsize x <= lsum l.
+Proof. induction l as [|y l IHl]; cbn; intros H; [contradiction|]. destruct H as [<-|H]; [lia|]. specialize (IHl H). unfold lsum in IHl. lia. Qed.
+Lemma dsum_in k x l : In (k, x) l -> vsize k + vsize x <= dsum l.
+Proof. induction l as [|[k' y] l IHl]; cbn; intros H; [contradiction|]. destruct H as [H|H]; [inversion H; subst; lia|]. specialize (IHl H). unfold dsum in IHl. lia. Qed.
+Lemma fsum_in nm x l : In (nm, x) l -> vsize x <= fsum l.
+Proof. induction l as [|[m y] l IHl]; cbn; intros H; [contradiction|]. destruct H as [H|H]; [inversion H; subst; lia|]. specialize (IHl H). unfold fsum in IHl. lia. Qed.
+
+Local Arguments Nat.max : simpl never.
+(* how many wrapper steps a type can spend before it consumes a layer of the value *)
+Fixpoint tw (t : ty) : nat := match t with TOpt t' | TNewType _ t' | TAnnot t' => S (tw t') | TAny => 2 | _ => 1 end.
+Fixpoint maxw (t : ty) : nat :=
+  match t with
+  | TOpt t' | TNewType _ t' | TAnnot t' => Nat.max (S (tw t')) (maxw t')
+  | TList t' | TTupleHom t' | TSet t' | TFrozenSet t' => Nat.max 1 (maxw t')
+  | TTuple ts => (fix m (l : list ty) : nat := match l with [] => 1 | x :: r => Nat.max (maxw x) (m r) end) ts
+  | TDict k v => Nat.max (maxw k) (maxw v)
+  | TAny => 2
+  | _ => 1
+  end.
+Definition tmax (l : list ty) : nat := (fix m (l : list ty) : nat := match l with [] => 1 | x :: r => Nat.max (maxw x) (m r) end) l.
+
+Lemma tmax_ge1 ts : 1 <= tmax ts.
+Proof. induction ts as [|y ts IHt]; cbn; [lia|]. unfold tmax in IHt. eapply Nat.le_trans; [exact IHt | apply Nat.le_max_r]. Qed.
+Lemma maxw_ge1 t : 1 <= maxw t.
+Proof.
+  induction t; cbn [maxw]; try lia; try (apply Nat.le_max_l); try (apply (tmax_ge1 ts)).
+  all: try (eapply Nat.le_trans; [exact IHt | apply Nat.le_max_r]).
+  all: try (eapply Nat.le_trans; [exact IHt1 | apply Nat.le_max_l]).
+Qed.
+Lemma tw_le_maxw t : tw t <= maxw t.
+Proof.
+  destruct t; cbn [tw maxw]; try lia; try apply Nat.le_max_l; try apply (tmax_ge1 ts).
+  eapply Nat.le_trans; [apply (maxw_ge1 t1) | apply Nat.le_max_l].
+Qed.
+Lemma tmax_in t ts : In t ts -> maxw t <= tmax ts.
+Proof.
+  induction ts as [|y ts IHt]; cbn; intros H; [contradiction|]. destruct H as [<-|H]; [apply Nat.le_max_l|].
+  specialize (IHt H). unfold tmax in IHt. eapply Nat.le_trans; [exact IHt | apply Nat.le_max_r].
+Qed.
+Lemma max_le_l a b c : Nat.max a b <= c -> a <= c.
+Proof. intros H. eapply Nat.le_trans; [apply Nat.le_max_l | exact H]. Qed.
+Lemma max_le_r a b c : Nat.max a b <= c -> b <= c.
+Proof. intros H. eapply Nat.le_trans; [apply Nat.le_max_r | exact H]. Qed.
+
+Variable M : nat.
+(* the declared attribute types of the environment's classes spend at most M wrapper steps in a row *)
+Hypothesis H_M : forall c cd nm ft, e_class E c = Some cd -> assoc (cd_types cd) nm = Some ft -> maxw ft <= M.
+Hypothesis H_M2 : 2 <= M.
+
+Lemma map_res_total {A B} (f : A -> result B) l : Forall (fun x => exists y, f x = Ok y) l -> exists r, map_res f l = Ok r.
+Proof.
+  induction 1 as [|x l (y & Hy) _ (r & Hr)]; [exists []; reflexivity|]. exists (y :: r). cbn [map_res]. rewrite Hy. cbn [bind]. rewrite Hr. reflexivity.
+Qed.
+
+Lemma zip_total (f : ty -> val -> result val) l ts : Forall2 (fun x t => exists u, f t x = Ok u) l ts -> exists r, zip_fast f ts l = Ok r.
+Proof.
+  induction 1 as [|x t l ts (u & Hu) _ (r & Hr)]; [exists []; reflexivity|]. exists (u :: r). cbn [zip_fast]. rewrite Hu. cbn [bind]. rewrite Hr. reflexivity.
+Qed.
+Lemma forall2_in {A B} (P Q : A -> B -> Prop) l r : Forall2 P l r -> (forall x y, In x l -> In y r -> P x y -> Q x y) -> Forall2 Q l r.
+Proof.
+  induction 1 as [|x y l r Hxy _ IHf]; intros H; constructor.
+  - apply H; [now left | now left | exact Hxy].
+  - apply IHf. intros a b Ha Hb. apply H; now right.
+Qed.
+
+Theorem un_total : forall n t x, rt_value E ann x t -> maxw t <= M -> vsize x * S M + tw t <= n -> exists u, un n t x = Ok u.
+Proof.
+  induction n as [|n IH]; intros t x Hrt Hm Hn; [pose proof (tw_le_maxw t); destruct t; cbn in Hn; lia|].
+  inversion Hrt; subst; clear Hrt; cbn [unstructure]; rewrite HU_gen.
+  - (* Any *)
+    destruct x; try discriminate; [eexists; reflexivity|]. cbn [rt_type]. cbn in Hn. destruct n; [lia|]. cbn [unstructure]. rewrite HU_gen. eexists; reflexivity.
+  - eexists; reflexivity.
+  - unfold member_value. match goal with X : nth_error _ _ = Some _ |- _ => rewrite X end. eexists; reflexivity.
+  - eexists; reflexivity.
+  - (* list *)
+    cbn [iter_val bind]. cbn [maxw] in Hm. apply max_le_r in Hm. cbn [vsize tw] in Hn. fold (lsum l) in Hn.
+    destruct (map_res_total (un n t0) l) as (r & Hr).
+    { rewrite Forall_forall in *. intros y Hy. apply IH; [now apply H | exact Hm|]. pose proof (lsum_in y l Hy). pose proof (tw_le_maxw t0). nia. }
+    rewrite Hr. eexists; reflexivity.
+  - (* homogeneous tuple *)
+    cbn [iter_val bind]. cbn [maxw] in Hm. apply max_le_r in Hm. cbn [vsize tw] in Hn. fold (lsum l) in Hn.
+    destruct (map_res_total (un n t0) l) as (r & Hr).
+    { rewrite Forall_forall in *. intros y Hy. apply IH; [now apply H | exact Hm|]. pose proof (lsum_in y l Hy). pose proof (tw_le_maxw t0). nia. }
+    rewrite Hr. eexists; reflexivity.
+  - (* heterogeneous tuple *)
+    match goal with X : Forall2 (rt_value E ann) _ _ |- _ => rename X into HF end.
+    rewrite (forall2_length _ _ _ HF), Nat.ltb_irrefl. cbn [maxw] in Hm. fold (tmax ts) in Hm. cbn [vsize tw] in Hn. fold (lsum l) in Hn.
+    destruct (zip_total (un n) l ts) as (r & Hr).
+    { eapply forall2_in; [exact HF|]. intros y t' Hy Ht' Hyt. apply IH; [exact Hyt | |].
+      - eapply Nat.le_trans; [apply (tmax_in t' ts Ht') | exact Hm].
+      - pose proof (lsum_in y l Hy). pose proof (tw_le_maxw t'). pose proof (tmax_in t' ts Ht'). nia. }
+    rewrite Hr. eexists; reflexivity.
+  - (* set *)
+    match goal with X : key_ty _ = true |- _ => rename X into Hk end.
+    match goal with X : Forall _ l |- _ => rename X into HF end.
+    match goal with X : set_like l |- _ => rename X into HS end.
+    cbn [iter_val bind]. cbn [maxw] in Hm. apply max_le_r in Hm. cbn [vsize tw] in Hn. fold (lsum l) in Hn.
+    destruct (map_res_total (un n t0) l) as (r & Hr).
+    { rewrite Forall_forall in *. intros y Hy. apply IH; [now apply HF | exact Hm|]. pose proof (lsum_in y l Hy). pose proof (tw_le_maxw t0). nia. }
+    rewrite Hr. cbn [bind]. apply map_res_forall2 in Hr. rewrite (key_map n t0 l r Hk HF Hr).
+    pose proof (set_enc t0 l Hk [] (Forall_nil _) HF HS) as Hse. cbn in Hse. rewrite Hse. eexists; reflexivity.
+  - (* frozenset *)
+    match goal with X : key_ty _ = true |- _ => rename X into Hk end.
+    match goal with X : Forall _ l |- _ => rename X into HF end.
+    match goal with X : set_like l |- _ => rename X into HS end.
+    cbn [iter_val bind]. cbn [maxw] in Hm. apply max_le_r in Hm. cbn [vsize tw] in Hn. fold (lsum l) in Hn.
+    destruct (map_res_total (un n t0) l) as (r & Hr).
+    { rewrite Forall_forall in *. intros y Hy. apply IH; [now apply HF | exact Hm|]. pose proof (lsum_in y l Hy). pose proof (tw_le_maxw t0). nia. }
+    rewrite Hr. cbn [bind]. apply map_res_forall2 in Hr. rewrite (key_map n t0 l r Hk HF Hr).
+    pose proof (set_enc t0 l Hk [] (Forall_nil _) HF HS) as Hse. cbn in Hse. rewrite Hse. eexists; reflexivity.
+  - (* mapping *)
+    match goal with X : key_ty _ = true |- _ => rename X into Hk end.
+    match goal with X : Forall _ kvs |- _ => rename X into HF end.
+    match goal with X : dict_like kvs |- _ => rename X into HD end.
+    cbn [items_val bind]. unfold un_pairs. cbn [maxw] in Hm. cbn [vsize tw] in Hn. fold (dsum kvs) in Hn.
+    destruct (map_res_total (fun kv => do k <- un n kt (fst kv); do v <- un n vt (snd kv); Ok (k, v)) kvs) as (ps & Hps).
+    { rewrite Forall_forall in *. intros [k v] Hkv. destruct (HF _ Hkv) as [Hkr Hvr]. cbn [fst snd] in *.
+      pose proof (dsum_in k v kvs Hkv). pose proof (tw_le_maxw kt). pose proof (tw_le_maxw vt).
+      destruct (IH kt k Hkr (max_le_l _ _ _ Hm)) as (k' & Ek); [apply max_le_l in Hm; nia|].
+      destruct (IH vt v Hvr (max_le_r _ _ _ Hm)) as (v' & Ev); [apply max_le_r in Hm; nia|].
+      rewrite Ek, Ev. eexists; reflexivity. }
+    rewrite Hps. cbn [bind]. apply map_res_forall2 in Hps.
+    assert (R : Forall2 (fun kv p => un n kt (fst kv) = Ok (fst p) /\ un n vt (snd kv) = Ok (snd p)) kvs ps).
+    { eapply forall2_impl; [|exact Hps]. intros kv p Hp. cbn in Hp.
+      destruct (un n kt (fst kv)) as [k'| |]; cbn [bind] in Hp; try discriminate.
+      destruct (un n vt (snd kv)) as [v'| |]; cbn [bind] in Hp; try discriminate. inversion Hp; subst. cbn. auto. }
+    assert (Hd : dict_of_pairs [] ps = Ok ps).
+    { apply (dict_enc kt kvs ps Hk) with (acc := []) (accp := []); [|constructor|exact HD].
+      eapply forall_forall2; [exact HF | exact R|]. intros kv p [Hkr _] [Hku _]. split; [exact Hkr|]. eapply key_unstructure; eassumption. }
+    rewrite Hd. eexists; reflexivity.
+  - eexists; reflexivity.
+  - (* Optional: a value *)
+    cbn [maxw] in Hm. cbn [tw] in Hn.
+    assert (G : exists u, un n t0 x = Ok u) by (apply IH; [assumption | exact (max_le_r _ _ _ Hm) | lia]).
+    destruct x; try exact G. eexists; reflexivity.
+  - (* class *)
+    match goal with X : e_class E c = Some _ |- _ => rename X into Hc end.
+    match goal with X : map fst i = _ |- _ => rename X into Hkeys end.
+    match goal with X : Forall _ i |- _ => rename X into HF end.
+    rewrite Hc. cbn [inst_fields]. rewrite HU_tuple. unfold nov.
+    destruct (H_env c cd Hc) as (W & HA).
+    assert (Ht : topt cfgU c = topt cfgS c) by (unfold topt; now rewrite HU_forbid, HS_forbid). rewrite Ht.
+    match goal with |- context [un_gen _ _ _ _ ?h _ _] => set (hs_u := h) end.
+    pose (hu := fun nm v => match hs_u nm v with Ok w => w | _ => VNone end).
+    assert (A_init : forall f, In f (cd_fields cd) -> f_init f = true) by (intros f Hf; now destruct (HA f Hf)).
+    cbn [vsize tw] in Hn. fold (fsum i) in Hn.
+    assert (H_hu : forall f, In f (cd_fields cd) -> hs_u (f_name f) (aval val VNone i f) = Ok (hu (f_name f) (aval val VNone i f))).
+    { intros f Hf. pose proof (vals_ok val VNone (cd_fields cd) i Hkeys f Hf) as Ea. apply assoc_in in Ea.
+      rewrite Forall_forall in HF. pose proof (HF _ Ea) as Hv. cbn [fst snd] in Hv. pose proof (fsum_in _ _ _ Ea) as Hsz.
+      assert (G : exists w, hs_u (f_name f) (aval val VNone i f) = Ok w).
+      { unfold hs_u. unfold field_ty in Hv. destruct (assoc (cd_types cd) (f_name f)) as [ft|] eqn:Et.
+        - pose proof (H_M c cd _ _ Hc Et) as Hft. pose proof (tw_le_maxw ft). apply IH; [exact Hv | exact Hft | nia].
+        - inversion Hv; subst. destruct (aval val VNone i f); try discriminate; [eexists; reflexivity|]. cbn [rt_type].
+          destruct n; [cbn in Hn; lia|]. cbn [unstructure]. rewrite HU_gen. eexists; reflexivity. }
+      destruct G as (w & Hw). unfold hu. now rewrite Hw. }
+    rewrite (un_gen_all val VNone (topt cfgS c) eq_refl eq_refl (cd_fields cd) W A_init i Hkeys hs_u hu H_hu val_eqb). eexists; reflexivity.
+  - (* NewType *)
+    cbn [maxw] in Hm. cbn [tw] in Hn. apply IH; [assumption | exact (max_le_r _ _ _ Hm) | lia].
+  - (* Annotated *)
+    cbn [maxw] in Hm. cbn [tw] in Hn. apply IH; [assumption | exact (max_le_r _ _ _ Hm) | lia].
+Qed.
+
+(* C01 with the fuel made explicit: a value of T has an unstructured form, and structuring it gives the value back *)
+Theorem roundtrip_total : forall t x, rt_value E ann x t -> maxw t <= M ->
+  exists n u, un n t x = Ok u /\ st n t u = Ok x.
+Proof.
+  intros t x Hrt Hm. exists (vsize x * S M + tw t). destruct (un_total _ t x Hrt Hm (Nat.le_refl _)) as (u & Hu).
+  exists u. split; [exact Hu|]. eapply roundtrip; eassumption.
+Qed.
+
 End RT.
